@@ -362,7 +362,7 @@ func c10ContextScenarios(rep *Report, tier string) {
 		{
 			w, _ := NewWorld()
 			src := "(do (def outer (future (future (do (sleep 40) 7)))) (def inner @outer) (list (future-cancel outer) @inner (future-cancelled? inner) (future-cancelled? outer)))"
-			o := w.EvalText(context.Background(), src)
+			o, _ := w.EvalTextWithin(src, 10*time.Second)
 			idx := rep.Add("F 0", "ok", src, true, "scenario:cancel-of-a-completed-future-changes-nothing")
 			if o.Err != nil || o.Panic != nil || Show(o.Val) != "(false 7 false false)" {
 				rep.Violate(idx, fmt.Sprintf("future-cancel on a completed, never cancelled future must return false and change nothing (its body's context included: futures the body started go on): got %s, expected (false 7 false false)", d2o(o)), src)
@@ -375,7 +375,7 @@ func c10ContextScenarios(rep *Report, tier string) {
 			time.Sleep(60 * time.Millisecond) // the creator's deadline passes while the body sleeps
 			cancel()
 			src := "(list (try @f (catch e :body-timed-out)) (future-cancelled? f) (future-cancel f) (future-cancelled? f) (future-done? f))"
-			o := w.EvalText(context.Background(), src)
+			o, _ := w.EvalTextWithin(src, 10*time.Second)
 			idx := rep.Add("F 0", "ok", "(def f (future (do (sleep 100000) :never))) under a 30ms deadline; later: "+src, true, "scenario:creator-deadline-is-not-a-cancel")
 			if o.Err != nil || o.Panic != nil || Show(o.Val) != "(:body-timed-out false false false true)" {
 				rep.Violate(idx, fmt.Sprintf("a future whose creator's deadline passed was never cancelled by future-cancel: future-cancelled? must stay false and future-cancel on it (completed) must return false: got %s, expected (:body-timed-out false false false true)", d2o(o)), src)
